@@ -159,9 +159,12 @@ def stream_unpack(rnd, env, st, n, op='UNPACK'):
             o = casegen.Opts(rnd, shuffle=rnd.random() < 0.7, pad=rnd.random() < 0.5, repack=rnd.random() < 0.6,
                              split=rnd.random() < 0.5, stale=rnd.random() < 0.4, unknown=rnd.random() < 0.4)
             bs = casegen.encode(env, m, o); k = 'reencoded'
-        elif r < 0.9:
+        elif r < 0.85:
             o = casegen.Opts(rnd, shuffle=True, pad=True, repack=True, split=True, stale=True, unknown=True)
             bs = casegen.corrupt(rnd, casegen.encode(env, m, o if rnd.random() < 0.5 else casegen.CANON)); k = 'corrupted'
+        elif r < 0.92:
+            o = casegen.Opts(rnd, shuffle=rnd.random() < 0.3, lead_unknown=rnd.random() < 0.5, bad_later=True)
+            bs = casegen.encode(env, m, o); k = 'rejected-later-occurrence' if o.bad_done else 'leading-unknown'
         else:
             bs = [rnd.randint(0, 255) for _ in range(rnd.randint(0, 40))]; k = 'random'
         l = '%s %d %s' % (op, d, casegen.hexs(bs))
@@ -645,6 +648,8 @@ def check_C11(tier, seed):
     rnd = random.Random(seed * 1000003 + 11)
     st = Stats()
     envs = envs_for(rnd, tier, 14, 120, big_every=4)
+    # always: schemas whose first message has more than 128 fields (heap-allocated required-fields bitmap)
+    envs = [casegen.gen_env(rnd, nmsgs=rnd.randint(1, 3), big=True, wide=True) for _ in range(2 if tier == 'quick' else 8)] + envs
     per_env = 40 if tier == 'quick' else 120
     tally = {'dropped_expected_fail': 0, 'complete_expected_ok': 0}
     for env in envs:
@@ -663,6 +668,22 @@ def check_C11(tier, seed):
             lines.append(l); expect.append(must_fail)
             st.add('UNPACK:required-dropped' if must_fail else 'UNPACK:complete', l)
             tally['dropped_expected_fail' if must_fail else 'complete_expected_ok'] += 1
+        # systematic: every required field without default (first, last, beyond index 127 first; at most 24 per schema) left out of
+        # a message of its own type and of a message embedding it, plainly and behind a leading unknown field
+        order = sorted(reqs, key=lambda r: (0 if [f.id for f in env.msgs[r[0]].fields].index(r[1]) in (0, len(env.msgs[r[0]].fields) - 1)
+                                                  or [f.id for f in env.msgs[r[0]].fields].index(r[1]) >= 128 else 1, rnd.random()))
+        for drop in order[:24]:
+            for lead in (False, True):
+                tops = [drop[0]] + [rnd.randrange(len(env.msgs)) for _ in range(2)]
+                for d in tops:
+                    m = casegen.gen_msg(rnd, env, d, canon=True)
+                    if not casegen.contains_type(env, m, drop[0]):
+                        continue
+                    bs = casegen.encode(env, m, casegen.Opts(rnd, drop=drop, lead_unknown=lead))
+                    l = 'UNPACK %d %s' % (d, casegen.hexs(bs))
+                    lines.append(l); expect.append(True)
+                    st.add('UNPACK:required-dropped-systematic' + ('-leading-unknown' if lead else ''), l)
+                    tally['dropped_expected_fail'] += 1
         # plus arbitrary inputs: the correspondence covers the required test on them too
         extra = stream_unpack(rnd, env, st, per_env // 2)
         c_out, m_out, bad, c_err, text = corr(run, ctx, env, lines + extra, 'c11')
@@ -1040,9 +1061,12 @@ def alloc_check(pid, tier, seed):
             r = rnd.random()
             if r < 0.5:
                 bs, _o = valid_variant(rnd, env, m, split=True)
-            elif r < 0.8:
+            elif r < 0.7:
                 base_bs = valid_variant(rnd, env, m, split=True)[0] if rnd.random() < 0.6 else casegen.encode(env, m, casegen.CANON)
                 bs = casegen.corrupt(rnd, base_bs)
+            elif r < 0.85:
+                # a later occurrence of a singular message field is rejected after the earlier one was stored
+                bs = casegen.encode(env, m, casegen.Opts(rnd, shuffle=rnd.random() < 0.3, bad_later=True))
             else:
                 bs = casegen.encode(env, m, casegen.CANON)
             inputs.append((d, casegen.hexs(bs)))
